@@ -393,6 +393,7 @@ def _where(o, exp, i):
 def _object_worker(args):
     qn, idx, depth = args
     acc = core.Acc()
+    objects.AWARE_FOR_NAIVE = True      # layout check: aware spellings of one instant must encode identically
     cls = classes.class_by_name(qn)
     objs = objects.seed_objects().get(cls, [])
     if idx >= len(objs):
